@@ -202,7 +202,10 @@ def cell_for(draw, min_width, classes=None, tightness=None):
         c = draw(st.floats(0.7, 1.6))
         lim = 0.1 if cls == "tilt-small" else 0.6
         lefthanded = cls == "left-handed"
-        if cls == "tilt-neg":
+        if cls == "tilt-yz":
+            # monoclinic with alpha != 90 only: xy = xz = 0, yz != 0
+            t = [0.0, 0.0, draw(st.floats(0.05, lim)) * draw(st.sampled_from([-1.0, 1.0]))]
+        elif cls == "tilt-neg":
             t = [-draw(st.floats(0.05, lim)), draw(st.floats(-lim, lim)), -draw(st.floats(0.05, lim))]
         else:
             t = [draw(st.floats(-lim, lim)) for _ in range(3)]
